@@ -26,6 +26,7 @@
 #define OP_DTOR 6
 #define OP_ALLOC_ARRAY 7
 #define OP_TRY_ALLOC_ARRAY 8
+#define OP_RESERVE 9
 
 #define ST_LIVE 0
 #define ST_F16 1
@@ -234,6 +235,20 @@ void harness(void)
 #elif OP == OP_DTOR
     w_cnl_dtor(L);
     ASSERT(outstanding() == 0 && n_up_dealloc == ku, "C05: destructor returns every block exactly once, newest first (checked by the hook)");
+#elif OP == OP_RESERVE
+    /* reserve(node_size, capacity): documented to put `capacity` bytes of the arena onto the bucket's free list */
+    uint64_t ns = si ? 16 : 8;
+    uint64_t rc = nondet_u8(); ASSUME(rc >= ns && rc <= 32 && rc % ns == 0);
+    w_cnl_reserve(L, size, rc);
+    if (!EXC) {
+        nblk = 0;
+        for (int b = 0; b < 2; ++b) if (b < ku) { blk_lo[nblk] = B[b] + IO; blk_hi[nblk] = B[b] + bsz[b]; nblk++; }
+        if (n_up_alloc > ups && fresh_used == 1) { blk_lo[nblk] = fresh_blk + IO; blk_hi[nblk] = fresh_blk + up_last_req; nblk++; }
+        walk(&m8, &m16, &e8, &e16, xa, &nx);
+        ASSERT(w_cnl_pool_capacity_left(L, size) >= cap_pre + rc / ns, "C18: reserve() makes the reserved capacity available on the bucket's free list (memory taken from the arena is not lost)");
+        ASSERT((si ? m16 : m8) == pre_mask && (si ? m8 : m16) == (si ? pre8 : pre16), "C01: reserve() keeps the nodes that were free");
+    } else ASSERT(exc_is(XK_OOM), "C03: reserve() fails only when the upstream fails");
+    ASSERT(H8(wa) == wv, "C01: live allocations and block headers untouched");
 #elif OP == OP_ALLOC_ARRAY || OP == OP_TRY_ALLOC_ARRAY
     uint8_t cnt = nondet_u8(); ASSUME(cnt >= 1 && cnt <= 2);
 #if OP == OP_ALLOC_ARRAY
